@@ -106,7 +106,7 @@ var spec = &hx.Spec[Case]{
 	Rule: "cases = (matrix) client/server/upstream compression x skip-verify per hop x writable x history of get/has/put/put-invalid over chunks planted as present/missing/other-format-only/corrupt (valid object of wrong content) or damaged (cut object, garbage, the other format's bytes in the slot, empty file: undecodable in a compressed upstream store, wrong content in an uncompressed one), " +
 		"chunk lengths 1 B..100 kB (1 MB thorough) and, in about 1 matrix case of 40, chunks whose transfer form is around or above the default maximum chunk size (256 KiB-40..256 KiB+8, ..300 KiB, ..1 MiB; incompressible and compressible), " +
 		"plus fixed cases with raw and compressed transfer lengths 256 KiB-1, 256 KiB, 256 KiB+1, 300 KiB, 1 MiB x write verification on/off x upstream format; " +
-		"(index) history of get/reader/head/put over index names planted as present/missing/garbage; " +
+		"(index) history of get/reader/head/put over index names planted as present/missing/garbage, the index server serving the directory or (1 case in 3) another index server over it; " +
 		"(script) method x ErrorRetry 0..4 x per-attempt server responses (200, 404, 400/401/403, 500/502/503, connection close/RST, truncated body) of length <= 6, all scripts of length <= 4 x retry 0..3 enumerated for GetChunk and HasChunk; " +
 		"(proto) 1..3 casync protocol sessions over pipes on one store with present/missing/corrupt chunks, repeated IDs, large-then-smaller-or-equal reply orders and a closed or cut connection; " +
 		"every chunk a session returned is held and consumed later (at generated points and after the history) through a compressed and an uncompressed HTTP chunk server, a cache writing to a compressed LocalStore and an uncompressed LocalStore. " +
@@ -142,7 +142,7 @@ var spec = &hx.Spec[Case]{
 		"matrix:get:body>256KiB:compressed", "matrix:get:body>256KiB:uncompressed",
 		"matrix:put:body=256KiB-1:compressed", "matrix:put:body=256KiB:compressed", "matrix:put:body=256KiB+1:compressed",
 		"matrix:put:body=256KiB-1:uncompressed", "matrix:put:body=256KiB:uncompressed", "matrix:put:body=256KiB+1:uncompressed",
-		"index:get:present", "index:get:missing", "index:get:garbage", "index:head:present", "index:head:missing", "index:put:writable", "index:put:readonly", "index:read-after-put",
+		"index:upstream-is-an-index-server", "index:get:present", "index:get:missing", "index:get:garbage", "index:head:present", "index:head:missing", "index:put:writable", "index:put:readonly", "index:read-after-put",
 		"script:invisible-run", "script:exhausted", "script:f==retry", "script:terminal:200", "script:terminal:404", "script:terminal:4xx",
 		"script:kind:reset", "script:kind:short", "script:kind:5xx",
 		"script:m:getchunk", "script:m:haschunk", "script:m:storechunk", "script:m:getindex", "script:m:storeindex",
